@@ -17,5 +17,5 @@ func TestC04P(t *testing.T) {
 	if err != nil {
 		t.Fatalf("VERIF-INFRA registry: %v", err)
 	}
-	r.RunC04(t, st, 16000, 400000)
+	r.RunC04(t, st, 16000, 1200000)
 }
